@@ -232,6 +232,27 @@ def run(ctx):
     if S is None:
         S = W if W.calls('strcmp') else None
     if S is None:
+        # no whole-string comparison at all: is the name compared with a BOUNDED comparison (strncmp/memcmp)?  That is a
+        # prefix match unless the other string is known to end where the comparison ends
+        bounded = [(g, c) for g in fs for c in g.calls() if c.get('callee') in ('strncmp', 'strncasecmp', 'memcmp')]
+        for g, c in bounded:
+            p_ = c.parent
+            while p_ is not None and p_.k not in ('IfStmt', 'WhileStmt', 'ForStmt', 'ReturnStmt', 'CompoundStmt'):
+                p_ = p_.parent
+            scope = list(p_.walk()) if p_ is not None and p_.k != 'CompoundStmt' else list(c.walk())
+            ends = any(x.k == 'ArraySubscriptExpr' and x.parent is not None and x.parent.k in ('BinaryOperator', 'ImplicitCastExpr')
+                       for x in scope if x.k == 'ArraySubscriptExpr' and any(
+                           render(y) == render(arg(c, 2)) for y in x.ch[1].walk())) or \
+                any(x.k == 'CallExpr' and x.get('callee') == 'strlen' for x in scope if x is not c and x.k == 'CallExpr' and
+                    x.parent is not None and any(z.k == 'BinaryOperator' and z.get('op') == '==' for z in [x.parent, x.parent.parent] if z is not None))
+            chk.ob('X2', 'name-match-is-strcmp-equality', ends, c.where(), g.name,
+                   'names are compared with %s: the comparison stops after %s characters, so a listed name that merely BEGINS '
+                   'with an ancestor\'s name (or the reverse) counts as equal ("shutdown" matches the ancestor "sh") - nothing '
+                   'checks that both strings end there' % (render(c)[:60], render(arg(c, 2))[:30]),
+                   how='bounded comparison together with a test that the other string ends at the same length')
+        if bounded:
+            if any(not o.ok for o in chk.obls if o.rule == 'X2'):
+                return
         raise AnalysisBroken('no strcmp-based name comparison reachable from the filter')
     medges = set()
     for b in S.blocks.values():
@@ -435,6 +456,15 @@ def x4_dense_list(chk, fs, S):
             if l is not None and l.k == 'ArraySubscriptExpr' and (decl_of(l.ch[0]) or {}).get('id') == arr['id']:
                 iv = decl_of(l.ch[1])
                 return iv['id'] if iv is not None else -1
+            # a slot cursor walked over the array: *slot = ... / *slot++ = ...
+            if l is not None and l.k == 'UnaryOperator' and l.get('op') == '*':
+                t = strip(l.ch[0])
+                if t is not None and t.k == 'UnaryOperator' and t.get('op') == '++':
+                    t = strip(t.ch[0])
+                d_ = decl_of(t) if t is not None else None
+                if d_ is not None and d_['id'] != arr['id'] and common.alias_root(T, d_['id']) == arr['id'] or (
+                        d_ is not None and any((decl_of(x) or {}).get('id') == arr['id'] for x in def_exprs(T, d_['id']))):
+                    return d_['id']
         return None
 
     def increments(e, vid):
